@@ -120,8 +120,14 @@ def _run_task(args):
         out["gen_s"] = round(task.wall, 3)
         hooks = [getattr(m, "REPLAY_EXTRACT", None) for m in loaded]
 
+        t_dis = time.time()
+        budget = opts.get("task_budget_s", 120)
+
         def do_one(ob):
-            solve.discharge(ob, opts.get("z3_timeout_ms", 10000), opts.get("cvc5_timeout_s", 15), opts.get("cross_check", False), expect_sat=task.contract.probe)
+            # once a task has used its solver budget (only happens when many obligations fail), the rest get short timeouts
+            over = (time.time() - t_dis) > budget
+            solve.discharge(ob, 1500 if over else opts.get("z3_timeout_ms", 10000), 3 if over else opts.get("cvc5_timeout_s", 15),
+                            opts.get("cross_check", False) and not over, expect_sat=task.contract.probe, quick_fail=over)
             rec = {"name": ob.name, "kind": ob.kind, "status": ob.status, "backend": ob.backend,
                    "time": round(ob.time, 4), "tags": tags_of(ob.name), "line": ob.line,
                    "trace": [list(x) for x in ob.trace], "nhyps": len(ob.hyps)}
